@@ -8,11 +8,14 @@ Line-protocol handlers for the composed model of `MainEvent::vertex()` (C09b). T
 exactly as in the `avalanches` request of `Driver/C13b.lean` (whose parser is reused):
 
 * `vertex <wire response> | <pad response> | <neighbour factors> | w<idx>:<samples> … |
-  p<col>.<row>:<samples> …` → `ok none` | `ok <x> <y> <z>` (bit patterns, `nan` for any NaN) |
-  `panic <site>`;
+  p<col>.<row>:<samples> …` → `ok none pts=<n>:<digest>` | `ok <x> <y> <z> pts=<n>:<digest>`
+  (bit patterns, `nan` for any NaN; `pts`: number and FNV-1a digest of the space points handed to
+  `cluster_spacepoints`, so that a comparison can tell "same points, different vertex" from
+  "different points") | `panic <site>`;
 * `vertexx <pad response> | w<idx>:<deconvolved input> … | p<col>.<row>:<samples> …` → the same
-  answer, with `exact` in place of `ok`, for the chain downstream of the wire deconvolution (the w-tokens carry what
-  `wire_range_deconvolution` returned, as in `avalanchesx` of `Driver/C13b.lean`): bit for bit;
+  answer, with `exact` in place of `ok`, for the chain downstream of the wire deconvolution (the
+  w-tokens carry what `wire_range_deconvolution` returned, as in `avalanchesx` of
+  `Driver/C13b.lean`): bit for bit;
 * an `ok` answer of `vertex`/`vertexx` ends in ` dust=<k>` when `k > 0` avalanches of the model's
   list have a wire amplitude below `1e-9` of the largest;
 * `vertexstages <same arguments>` → `stages av=<n> sp=<n> cl=<n>[<sizes>] tr=<n> cand=<n> vt=<n>`
@@ -145,15 +148,22 @@ def showOpt (x : Option Nat) : String :=
   | some n => toString n
   | none => "-"
 
+def showSizes (s : Sizes) (dust : Nat) : String :=
+  let sizes := ",".intercalate (s.clusterSizes.map toString)
+  let tail := match s.panic with
+    | some site => s!" panic={site}"
+    | none => ""
+  let d := if dust = 0 then "" else s!" dust={dust}"
+  s!"stages av={showOpt s.avalanches} sp={showOpt s.points} cl={showOpt s.clusters}[{sizes}] tr={showOpt s.tracks} cand={showOpt s.candidates} vt={showOpt s.vertexTracks}{tail}{d}"
+
+/-- `stageSizes (pipe T) ev`, with the dust count of the model's avalanche list appended. -/
 def stagesAnswer (args : List String) : String :=
   match parseEvent args with
   | some (T, ev) =>
-    let s := stageSizes (pipe T) ev
-    let sizes := ",".intercalate (s.clusterSizes.map toString)
-    let tail := match s.panic with
-      | some site => s!" panic={site}"
-      | none => ""
-    s!"stages av={showOpt s.avalanches} sp={showOpt s.points} cl={showOpt s.clusters}[{sizes}] tr={showOpt s.tracks} cand={showOpt s.candidates} vt={showOpt s.vertexTracks}{tail}"
+    match stageAvalanches (pipe T) ev with
+    | .panic site => showSizes { panic := some site } 0
+    | .err _ => showSizes {} 0
+    | .ok avs => showSizes (stageSizesFrom (pipe T) avs) (dustCount avs)
   | none => "bad-request"
 
 def pointsAnswer (args : List String) : String :=
